@@ -76,7 +76,8 @@ LMaybeAppend(lg, st, idx, term, committed, ents) ==
 LMaybeCommit(lg, st, maxIndex, term) ==
     maxIndex > lg.committed /\ ~LTermErr(lg, st, maxIndex) /\ LTerm(lg, st, maxIndex) = term
 
-LAppliedToFatal(lg, idx) == idx # 0 /\ (idx > lg.committed \/ idx < lg.applied)
+\* repair F7: reporting the recorded applied index again is a no-op (applied may be ahead of committed after a restart)
+LAppliedToFatal(lg, idx) == idx # 0 /\ (Ab("AppliedToChecksNoOp") \/ idx # lg.applied) /\ (idx > lg.committed \/ idx < lg.applied)
 LAppliedTo(lg, idx) == IF idx = 0 THEN lg ELSE [lg EXCEPT !.applied = idx]
 
 LStableEntriesFatal(lg, index, term) ==
